@@ -6,7 +6,7 @@ from props import textcommon
 
 def keyfn(ev, why):
     return ("json-emit:%s:%s:%s" % (ev["pos"], textcommon.sym_class(ev["syms"]), why),
-            "%s via %s with %s -> %s; wrote %r %s" % (ev["pos"], ev["via"], "".join("<%s>" % s for s in ev["syms"]), why, ev.get("raw", "")[:200], ev["err"][:100]))
+            "%s via %s with %s -> %s; wrote %r %s" % (ev["pos"], ev["via"], textcommon.show(ev["syms"]), why, ev.get("raw", "")[:200], ev["err"][:100]))
 
 
 def check(run):
